@@ -118,6 +118,25 @@ class Chooser:
         return seq[self.choose(len(seq), label, key=key)]
 
 
+class RandomChooser(Chooser):
+    """Sampled supplement: every choice is drawn from a seeded generator (never what a verdict rests on; a failing sample is still a real
+    execution and is replayable through its recorded choice list)."""
+
+    def __init__(self, seed, p_default=0.7):
+        Chooser.__init__(self, [], None, None)
+        import random
+        self.rnd = random.Random(seed)
+        self.p_default = p_default
+
+    def choose(self, n, label="", costs=None, key=None):
+        c = 0
+        if n > 1 and self.rnd.random() > self.p_default:
+            c = self.rnd.randrange(1, n)
+        self.points.append((n, label, tuple(costs or ()), None))
+        self.choices.append(c)
+        return c
+
+
 class Explorer:
     def __init__(self, harness, bound=None, merge=True, max_execs=None, on_exec=None, max_violations=40, shard=None):
         self.harness = harness
